@@ -56,7 +56,7 @@ LEVEL_NOTE = ("theorems are about the hand-written Gallina model (Model/Derivs.v
               "by the sampled correspondence check; the oracle differentiates the exact polynomial pieces (interpolated from exact Cox-de Boor "
               "values) formally and divides power series for rational shapes, independently of every derivative formula of the library")
 # functions of the numerical core this property rests on that are also tied by the translator (tie theorems: Proofs/GenTie*.v, restated in Props/)
-TRANSLATED = ["helpers.find_span_linear", "helpers.find_spans", "helpers.basis_function_ders", "helpers.basis_function_ders_one", "helpers.basis_function", "helpers.curve_deriv_cpts", "helpers.surface_deriv_cpts"]
+TRANSLATED = ["helpers.find_span_linear", "helpers.find_spans", "helpers.basis_function_ders", "helpers.basis_function_ders_one", "helpers.basis_function", "helpers.curve_deriv_cpts", "helpers.surface_deriv_cpts", "helpers.basis_function_all", "evaluators.CurveEvaluator.derivatives", "evaluators.CurveEvaluatorRational.derivatives", "evaluators.CurveEvaluator2.derivatives", "evaluators.SurfaceEvaluator.derivatives", "evaluators.SurfaceEvaluatorRational.derivatives", "evaluators.SurfaceEvaluator2.derivatives"]
 TECHNIQUE = "Coq 8.16: real analysis with derivable_pt_lim (Eq. 2.7/2.9 are the true derivatives, all degrees); induction + ring/field over R for the rational quotient rule; field on symbolic knot windows for A2.3; exact Fraction oracle"
 
 
